@@ -1,0 +1,6 @@
+//go:build verif
+
+package kubeeventsmanager
+
+// VerifEventsEnabled reads monitor.eventsEnabled.
+func VerifEventsEnabled(m *monitor) bool { return m.eventsEnabled }
